@@ -34,8 +34,9 @@ func init() {
 
 // also: violations of these properties inside a property's own scenarios count for it.
 var also = map[string][]string{
+	"C03": {"C01"}, // an event that is lost for one holder shows as a client copy that stays behind
 	"C06": {"C03"},
-	"C11": {"C09", "C07"},
+	"C11": {"C09", "C07", "C19"},
 	"C13": {"C01", "C03", "C07"},
 	"C19": {"C07", "C01", "C06"},
 }
